@@ -35,7 +35,7 @@ static std::vector<Op> make_alphabet(size_t cap) {
 static long g_hist = 0, g_nontrivial = 0, g_fail = 0, g_errors = 0, g_nulls = 0;
 
 static void report(const char* what, const std::vector<int>& h, const std::vector<Op>& ops) {
-  if (g_fail++ < 40) {
+  if (g_fail++ < 2000) {
     std::printf("FAIL %s :", what);
     for (int i : h) std::printf(" %c(%zu,%zu)", ops[i].kind, ops[i].size, ops[i].align);
     std::printf("\n");
